@@ -55,6 +55,9 @@ def convert_to_bool_expression(qlassf: QlassF, form: str):
 
 def convert_to_dimacs(expr):
     cnf = to_cnf(expr, simplify=True)
+    if cnf in (sympy.true, sympy.false):
+        # a constant function: no clause at all, or the empty clause (unsatisfiable)
+        return "p cnf 0 0\n" if cnf == sympy.true else "p cnf 0 1\n0\n"
     # a conjunction is a list of clauses; anything else (a single disjunction, a literal) is one clause
     clauses = cnf.args if isinstance(cnf, sympy.And) else [cnf]
 
